@@ -19,4 +19,7 @@ ENTRIES = [
     Entry('todict-drops-base-histories', K, [('    def toDict(self):\n        data = super().toDict()\n        for p in range(len(self.phases)):', '    def toDict(self):\n        data = {}\n        for p in range(len(self.phases)):')], 'R20.2'),
     Entry('benign-save-guard-reordered', D, [('        if self._recordedX is not None and self._recordedTime is not None:', '        if self._recordedTime is not None and self._recordedX is not None:')], kind='benign'),
     Entry('benign-fallthrough-keyword-phase', S, [('            return self.therm.impingementFactor(x, T, precPhase, *args, **kwargs)', '            return self.therm.impingementFactor(x, T, precPhase=precPhase, *args, **kwargs)')], kind='benign'),
+    Entry('rebreak-F22', S, [("        dnkj, dtracer = np.array(data['dnkj']), np.array(data['dtracer'])", "        dnkj, dtracer = data['dnkj'], data['dtracer']")], 'R20.6'),
+    Entry('rebreak-F23', S, [('            numSolutes = self.numElements - 1\n            d = np.power(output[:,numSolutes*numSolutes:],3)', '            numSolutes = x.shape[1]\n            d = np.power(output[:,numSolutes*numSolutes:],3)')], 'R20.7'),
+    Entry('benign-fit-asarray', S, [("        dnkj, dtracer = np.array(data['dnkj']), np.array(data['dtracer'])", "        dnkj = np.asarray(data['dnkj'])\n        dtracer = np.asarray(data['dtracer'])")], kind='benign'),
 ]
